@@ -148,3 +148,53 @@ Proof.
     + apply Hc. eapply nth_error_In; eauto.
     + apply NSc. apply in_map. eapply nth_error_In; eauto.
 Qed.
+
+(* ------------------------------------------------------------------ *)
+(* tree_insert (new root on a root split), BPlusTree_delitem, tree_get *)
+Lemma sim_tree_insert : forall t rc k v pt isnew rc' al',
+  4 <= tcap t -> wf (tcap t) (root t) -> nsorted (abs (root t)) ->
+  p_tree_insert (fuel_of t) (next_id t) rc (tcap t) (abs (root t)) k v = Some (pt, isnew, rc', al') ->
+  exists t', tree_insert t rc k v = Ok (t', rc') /\ abs (root t') = pt /\ wf (tcap t) (root t') /\
+    next_id t' = al' /\ tcap t' = tcap t /\ leaves t' = leaves t /\ modc t' = S (modc t) /\
+    size t' = (if isnew then S (size t) else size t).
+Proof.
+  intros t rc k v pt isnew rc' al' Hcap W NS E. unfold p_tree_insert in E.
+  destruct (p_ins (fuel_of t) (next_id t) rc (abs (root t)) k v) as [[[po rc1] al1]|] eqn:Ep; [|discriminate].
+  destruct (@sim_ins (fuel_of t) (tcap t) (root t) (next_id t) rc k v po rc1 al1 Hcap W NS Ep)
+    as (n' & io & Et & Eo & Wn' & Wio).
+  unfold tree_insert. rewrite Et. cbn [bind].
+  destruct io as [| | nn sk]; cbn [abs_out] in Eo; subst po.
+  - assert (H : pt = abs n' /\ isnew = false /\ rc' = rc1 /\ al' = al1) by (repeat split; congruence).
+    destruct H as (-> & -> & -> & ->). eexists. split; [reflexivity|]. cbn. repeat split; auto.
+  - assert (H : pt = abs n' /\ isnew = true /\ rc' = rc1 /\ al' = al1) by (repeat split; congruence).
+    destruct H as (-> & -> & -> & ->). eexists. split; [reflexivity|]. cbn. repeat split; auto.
+  - assert (H : pt = PBranch al1 (tcap t) [sk] [abs n'; abs nn] /\ isnew = true /\ rc' = rc1 /\ al' = N.succ al1)
+      by (repeat split; congruence).
+    destruct H as (-> & -> & -> & ->).
+    destruct (@sim_new_root (tcap t) al1 n' nn sk) as (nr1 & nr2 & nr3 & E1 & E2 & E3 & R); [lia|].
+    rewrite E1. cbn [bind]. rewrite E2. cbn [bind]. rewrite E3. cbn [bind].
+    eexists. split; [reflexivity|]. cbn [root tcap next_id leaves modc size].
+    rewrite (repr_branch_abs R). cbn [map]. repeat split; auto.
+    eapply wf_branch; eauto. intros c [<-|[<-|[]]]; auto.
+Qed.
+
+Lemma sim_tree_delitem : forall t rc z pt rc' b,
+  1 <= tcap t -> wf (tcap t) (root t) -> nsorted (abs (root t)) ->
+  p_del (fuel_of t) rc (abs (root t)) z = Some (pt, rc', b) ->
+  exists t', tree_delitem t rc z = Ok (t', rc', b) /\ abs (root t') = pt /\ wf (tcap t) (root t') /\
+    next_id t' = next_id t /\ tcap t' = tcap t /\ leaves t' = leaves t /\
+    modc t' = (if b then S (S (modc t)) else modc t) /\
+    size t' = (if b then size t - 1 else size t).
+Proof.
+  intros t rc z pt rc' b Hcap W NS E.
+  destruct (@sim_del (fuel_of t) (tcap t) (root t) rc z pt rc' b Hcap W NS E) as (n' & Et & Ea & Wn').
+  unfold tree_delitem. rewrite Et. cbn [bind]. destruct b.
+  - eexists. split; [reflexivity|]. cbn. repeat split; auto.
+  - eexists. split; [reflexivity|]. cbn. repeat split; auto.
+Qed.
+
+Lemma sim_tree_get : forall t rc z r,
+  wf (tcap t) (root t) -> nsorted (abs (root t)) ->
+  p_get (fuel_of t) (abs (root t)) z = Some r ->
+  tree_get t rc z = Ok (match r with Some v => (incref rc v, Some v) | None => (rc, None) end).
+Proof. intros t rc z r W NS E. unfold tree_get. eapply sim_get; eauto. Qed.
